@@ -55,13 +55,13 @@ class SimRaw(io.RawIOBase):
         return self.role != "STDOUT"
 
     def isatty(self):
-        return False
+        return self.role == "STDOUT" and bool(self.fs.knobs.get("stdout_isatty", False))
 
     def fileno(self):
         # a simulated descriptor, usable with the patched os.fstat/os.read/os.write/...; never a
         # real one
         if self.role == "STDOUT":
-            raise io.UnsupportedOperation("simulated stdout has no descriptor")
+            return 1  # routed back to this object by the patched os.write/os.fstat/os.isatty
         fd = getattr(self, "_fd_owned", None)
         if fd is None:
             fd = self.fs.next_fd
@@ -402,6 +402,8 @@ class SimFS:
         return fd
 
     def os_close(self, fd):
+        if fd == 1:
+            return
         raw = self.fds.pop(fd)
         raw._fd_owned = None
         raw.close()
@@ -423,6 +425,11 @@ class SimFS:
 
     def os_fstat(self, fd):
         raw = self.fds[fd]
+        if raw.role == "STDOUT":
+            import stat as _stat
+
+            kind = _stat.S_IFCHR if raw.isatty() else _stat.S_IFIFO
+            return os.stat_result((kind | 0o620, 3, 1, 1, 0, 0, 0, 0, 0, 0))
         return self._stat_result(raw.path)
 
     def _stat_result(self, p):
@@ -493,6 +500,7 @@ class SimFS:
 
     def make_stdout(self):
         raw = SimRaw(self, "<stdout>", "STDOUT", False, True, False)
+        self.fds[1] = raw  # os.write(1, ...) / sys.stdout.fileno() reach the simulated stream
         buf = io.BufferedWriter(raw, int(self.knobs.get("stdout_buffer", io.DEFAULT_BUFFER_SIZE)))
         txt = io.TextIOWrapper(buf, self.knobs.get("stdout_encoding", "utf-8"), "strict", None,
                                bool(self.knobs.get("stdout_line_buffered", False)))
@@ -601,6 +609,7 @@ class Patches:
                 return real(fd, *args, **kw)
             return f
 
+        self._set(_os, "isatty", wrapfd(_os.isatty, lambda fd: fs.fds[fd].isatty()))
         self._set(_os, "open", wrap1(_os.open, fs.os_open))
         self._set(_os, "close", wrapfd(_os.close, fs.os_close))
         self._set(_os, "write", wrapfd(_os.write, fs.os_write))
